@@ -112,6 +112,13 @@ func Bytes(name string, n int) []byte {
 
 func String(name string, n int) string { return string(Bytes(name, n)) }
 
+// OneOf returns a byte constrained to the given alphabet (no forking in the engine).
+func OneOf(name string, alphabet string) byte {
+	v := Uint8(name)
+	Assume(strings.IndexByte(alphabet, v) >= 0)
+	return v
+}
+
 // Param is a concrete tier parameter (bound) of the harness.
 func Param(name string, def int) int {
 	mu.Lock()
